@@ -198,6 +198,19 @@ def r12g(F):
 			continue
 		if any(st[2][0] == 'disc' and 'pending_update_fee' in str(st[2]) for st in fu.blocks[sb]['s']) or any('pending_update_fee' in str(st) for st in fu.blocks[sb]['s']):
 			kept |= {v for v, t in m.items() if t != other}
+	# the same test written with `==` (possibly inside a closure of the writer)
+	for wn in F.family(wfn):
+		wu2 = F.func(wn)
+		wex2 = Expr(wu2)
+		for b, ci in wu2.calls():
+			f = norm(ci.get('f') or ci.get('t') or '')
+			if f.endswith('PartialEq>::eq') and 'FeeUpdateState' in f:
+				for a in ci['args']:
+					e = wex2.of_operand(a)
+					while e[0] in ('ref', 'deref'):
+						e = e[1]
+					if e[0] == 'agg' and e[2] in vs:
+						kept.add(e[2])
 	rfn = '<lightning::ln::channel::FundedChannel as lightning::util::ser::ReadableArgs>::read'
 	ru = F.func(rfn)
 	restored = {ru.blocks[b]['s'][si][2][3] for b, si in sites_construct(ru, 'FeeUpdateState')} - {'Outbound'}
